@@ -88,6 +88,7 @@ class Harness:
         self.tier = opts.get("tier", "quick")
         self.unwind = int(opts.get("unwind", "4"))
         self.block = int(opts.get("block", "128"))
+        self.small = int(opts.get("small", "0"))
         self.timeout = int(opts.get("timeout", "900"))
         self.mem = int(opts.get("mem", "8"))
         self.group = opts.get("group", "")
@@ -312,7 +313,9 @@ def link(h, meta, work):
     out = str(work / (h.name + ".goto"))
     lib = str(VERIF / "engine/verif_lib.c")
     steps = [
-        ["goto-cc", "-DVERIF_BLOCK=%d" % h.block, meta["goto_file"], lib, "-o", out],
+        ["goto-cc", "-DVERIF_BLOCK=%d" % h.block] +
+        (["-DVERIF_SMALL=%d" % h.small] if h.small else []) +
+        [meta["goto_file"], lib, "-o", out],
         ["goto-cc", out, "--function", meta["mangled_name"], "-o", out],
         ["goto-instrument", "--add-library", "--no-malloc-may-fail", out, out],
         ["goto-instrument", "--generate-function-body-options", "assert-false-assume-false",
@@ -652,7 +655,8 @@ def run_check(prop, tier, only, keep, seed):
 
         def job(h):
             rec = {"harness": h.name, "file": Path(h.file).name, "twin": h.twin,
-                   "stretch": h.stretch, "unwind": h.unwind, "block": h.block, "solver": h.solver,
+                   "stretch": h.stretch, "unwind": h.unwind, "block": h.block, "small": h.small,
+                   "solver": h.solver,
                    "tier": h.tier, "shape": h.shape, "verdict": None, "violations": [],
                    "known": [], "inconclusive": [], "replays": 0}
             key = BUDGET.acquire(h.mem)
@@ -938,7 +942,7 @@ def write_evidence(prop, tier, seed, results, files, wall, violations=0, note=""
             "peak_rss_mb": max([r.get("rss_mb", 0) for r in results] or [0]),
             "per_harness": [
                 {k: r.get(k) for k in ("harness", "file", "verdict", "twin", "stretch", "tier", "shape",
-                                       "unwind", "block", "solver", "properties", "proved", "wall_s",
+                                       "unwind", "block", "small", "solver", "properties", "proved", "wall_s",
                                        "rss_mb", "stats", "replays")}
                 for r in results],
             "repo_head": subprocess.run(["git", "-C", str(REPO), "rev-parse", "HEAD"],
